@@ -551,9 +551,12 @@ func toRGB(c color.Color) (uint8, uint8, uint8, uint8) {
 		g = uint8(pg)
 		b = uint8(pb)
 	default:
-		r = uint8((pr * 255) / pa)
-		g = uint8((pg * 255) / pa)
-		b = uint8((pb * 255) / pa)
+		// Round to the nearest value: premultiplying has already
+		// rounded down, dividing the alpha out again with a second
+		// truncation comes out one below the colour of the pixel
+		r = uint8((pr*255 + pa/2) / pa)
+		g = uint8((pg*255 + pa/2) / pa)
+		b = uint8((pb*255 + pa/2) / pa)
 		a = uint8(pa >> 8)
 	}
 	return r, g, b, a
